@@ -11,6 +11,24 @@ Require Import SR.Model.RefFormat SR.Spec.RefFormat SR.Proofs.RefFormatP.
 Require SR.Model.Clauses SR.Spec.Clauses SR.Proofs.ClausesP.
 Require SR.Model.Structure SR.Proofs.StructureP.
 Require Import SR.Model.Pipeline SR.Spec.Copybook.
+(* The definitions of this development that occur in theorem statements (Props/) live in Spec/PipelineWf.v (audit item G1).
+   The abbreviations keep the qualified names PipelineP.name of other files resolving; they are parsing-only aliases. *)
+Require Export SR.Spec.PipelineWf.
+Notation docs_of_infos := SR.Spec.PipelineWf.docs_of_infos (only parsing).
+Notation erase := SR.Spec.PipelineWf.erase (only parsing).
+Notation erase_f := SR.Spec.PipelineWf.erase_f (only parsing).
+Notation xpre := SR.Spec.PipelineWf.xpre (only parsing).
+Notation xpre_f := SR.Spec.PipelineWf.xpre_f (only parsing).
+Notation same_core := SR.Spec.PipelineWf.same_core (only parsing).
+Notation same_clauses := SR.Spec.PipelineWf.same_clauses (only parsing).
+Notation content := SR.Spec.PipelineWf.content (only parsing).
+Notation knames := SR.Spec.PipelineWf.knames (only parsing).
+Notation nodup_str := SR.Spec.PipelineWf.nodup_str (only parsing).
+Notation shape_ok := SR.Spec.PipelineWf.shape_ok (only parsing).
+Notation shape_ok_f := SR.Spec.PipelineWf.shape_ok_f (only parsing).
+Notation name_cobol := SR.Spec.PipelineWf.name_cobol (only parsing).
+Notation entry_defs := SR.Spec.PipelineWf.entry_defs (only parsing).
+Notation copybook_shape_ok := SR.Spec.PipelineWf.copybook_shape_ok (only parsing).
 Open Scope N_scope.
 
 (* ================================================================ lines *)
@@ -249,14 +267,6 @@ Proof.
 Qed.
 
 (* ================================================================ Layer B on the recovered entries *)
-Definition docs_of_infos (xs : list info) : R (list jdoc) :=
-  match SR.Model.Structure.structure (map i_entry xs) with
-  | Err e => RErr e
-  | Ok f => match annot_forest f (kept_infos xs) with
-            | None => RUn 6
-            | Some xf => build_all xf
-            end
-  end.
 
 Theorem schemas_of_printed : forall es tail seqs, copybook_ok es tail seqs = true ->
   schemas_of_text (print_copybook es tail seqs) = to_outcome (docs_of_infos (map spec_info es)).
@@ -715,16 +725,6 @@ Section TreeInd.
     end.
 End TreeInd.
 
-Fixpoint erase (t : xtree) : tree :=
-  match t with XNode d b _ kids => TNode d b (erase_f kids) end
-with erase_f (ks : xforest) : list tree :=
-  match ks with XNil => [] | XCons k r => erase k :: erase_f r end.
-
-Fixpoint xpre (t : xtree) : list info :=
-  match t with XNode _ _ x kids => x :: xpre_f kids end
-with xpre_f (ks : xforest) : list info :=
-  match ks with XNil => [] | XCons k r => xpre k ++ xpre_f r end.
-
 Lemma optstr_eqb_refl : forall o, optstr_eqb o o = true.
 Proof. intros [s|]; [apply StructureP.str_eqb_refl|reflexivity]. Qed.
 
@@ -938,10 +938,6 @@ Proof.
 Qed.
 
 (* ================================================================ layout and respelling *)
-(* the documents do not depend on the layout: sequence areas, indentation, the white space around the level number, the
-   line ends after the periods, what follows the last entry *)
-Definition same_core (e e' : centry) : Prop :=
-  ce_d1 e = ce_d1 e' /\ ce_d2 e = ce_d2 e' /\ ce_cs e = ce_cs e' /\ ce_sps e = ce_sps e'.
 
 Lemma same_core_info : forall es es', Forall2 same_core es es' -> map spec_info es = map spec_info es'.
 Proof.
@@ -956,13 +952,6 @@ Proof.
   intros es tail seqs es' tail' seqs' F OK OK'.
   rewrite (schemas_of_printed _ _ _ OK), (schemas_of_printed _ _ _ OK'), (same_core_info _ _ F). reflexivity.
 Qed.
-
-(* clause order, optional words, synonyms, letter case, separators: the recovered entries have the same content *)
-Definition same_clauses (e e' : centry) : Prop :=
-  ce_d1 e = ce_d1 e' /\ ce_d2 e = ce_d2 e' /\ Permutation.Permutation (ce_cs e) (ce_cs e').
-
-Definition content (e : entry) : lvl * option str * option str * option str * bool * bool :=
-  (elv e, ename e, option_map (map upper) (efill e), eredef e, epic e, eocc e).
 
 Lemma lookup_verbatim : forall k d d', normal d = normal d' -> (forall v, norm_value k v = v) -> lookup k d = lookup k d'.
 Proof.
@@ -1033,22 +1022,6 @@ Fixpoint xdefs (t : xtree) : list (str * str) :=
   match t with XNode d _ _ kids => (dde_name (de d), cobol_of d) :: xdefs_f kids end
 with xdefs_f (ks : xforest) : list (str * str) :=
   match ks with XNil => [] | XCons k r => xdefs k ++ xdefs_f r end.
-
-Fixpoint knames (ks : xforest) : list str :=
-  match ks with XNil => [] | XCons k r => du (xdde k) :: knames r end.
-
-Fixpoint nodup_str (l : list str) : bool :=
-  match l with [] => true | x :: r => negb (existsb (str_eqb x) r) && nodup_str r end.
-
-(* siblings carry different unique names, and an elementary OCCURS item (PICTURE and OCCURS) has no subordinate entries *)
-Fixpoint shape_ok (t : xtree) : bool :=
-  match t with
-  | XNode d _ _ kids =>
-      nodup_str (knames kids) && shape_ok_f kids
-      && (if eocc (de d) && epic (de d) then match kids with XNil => true | XCons _ _ => false end else true)
-  end
-with shape_ok_f (ks : xforest) : bool :=
-  match ks with XNil => true | XCons k r => shape_ok k && shape_ok_f r end.
 
 Definition jt_key (k : str) : bool := str_eqb k k_type || str_eqb k k_contentEncoding || str_eqb k k_conversion.
 
@@ -1258,8 +1231,6 @@ Proof.
   - intros k IHk r IHr. apply Df_cons; assumption.
 Qed.
 
-Definition name_cobol (d : dde) : str * str := (dde_name (de d), cobol_of d).
-
 Lemma xdefs_erase : (forall t, xdefs t = map name_cobol (preorder (erase t)))
                     /\ (forall ks, xdefs_f ks = map name_cobol (preorder_f (erase_f ks))).
 Proof.
@@ -1280,21 +1251,6 @@ Proof.
     destruct defs_doc_of as [DT _]. destruct (DT t St doc Et) as [_ Dd]. destruct xdefs_erase as [XE _].
     cbn [flat_map map]. rewrite StructureP.preorder_f_cons, map_app, Dd, XE, (IH r S eq_refl). reflexivity.
 Qed.
-
-(* the entries of the copybook that become nodes, as (data name, cobol text) *)
-Definition entry_defs (es : list centry) : list (str * str) :=
-  map name_cobol (StructureP.kept_of (map spec_entry es)).
-
-(* siblings carry different names and no elementary OCCURS item has subordinate entries - decided on the forest of the
-   copybook's entries *)
-Definition copybook_shape_ok (es : list centry) : bool :=
-  match structure (map spec_entry es) with
-  | Ok f => match annot_forest f (kept_infos (map spec_info es)) with
-            | Some xf => forallb shape_ok xf
-            | None => false
-            end
-  | Err _ => false
-  end.
 
 Theorem end_to_end_defs : forall es tail seqs docs,
   copybook_ok es tail seqs = true -> no_redefines es = true -> copybook_shape_ok es = true ->
@@ -3287,16 +3243,8 @@ Proof.
   - unfold info_skipped, spec_info, spec_entry. cbn [i_entry SR.Model.Structure.elv]. rewrite E1, E2. reflexivity.
 Qed.
 
-(* no item named like one of its ancestors, no name starting with REDEFINES- : on the forest of the copybook's entries
-   (nothing to ask when structure() refuses the copybook) *)
-Definition copybook_names_ok (es : list centry) : bool :=
-  match SR.Model.Structure.structure (map spec_entry es) with
-  | Ok f => match annot_forest f (kept_infos (map spec_info es)) with
-            | Some xf => forallb (names_wf []) xf
-            | None => false
-            end
-  | Err _ => true
-  end.
+(* defined in Spec/PipelineWf.v, module Resp2 *)
+Notation copybook_names_ok := SR.Spec.PipelineWf.Resp2.copybook_names_ok (only parsing).
 
 Lemma dsim2_lv : forall d d', dsim2 d d' -> SR.Model.Structure.dlv d = SR.Model.Structure.dlv d'.
 Proof. intros d d' H. apply H. Qed.
